@@ -489,6 +489,8 @@ pub struct World {
     pub benign: bool,
     pub op_label: &'static str,
     pub sim_time_max: u64,
+    /// twin runs: tags of cancelled requests that are known never to have been enqueued
+    pub never_enqueued: Vec<u32>,
     pub qos0_cancelled: bool,
     pub burn_done: bool,
     pub twin_mode: bool,
@@ -569,6 +571,7 @@ impl World {
             benign: false,
             op_label: "",
             sim_time_max: 0,
+            never_enqueued: Vec::new(),
             qos0_cancelled: false,
             burn_done: false,
             twin_mode: false,
@@ -1188,6 +1191,13 @@ impl World {
                     format!("undecodable/type={}/{}", codec::type_name_of(raw[0] >> 4), err_class(&e)),
                     format!("the reference decoder rejects the client's packet: {:?} in {}", e, crate::util::hex(&raw)),
                 );
+                if matches!(e, DecErr::ZeroPacketId) && matches!(raw[0] >> 4, 3 | 8 | 10) {
+                    self.violate(
+                        "C07",
+                        format!("zero-identifier/type={}", codec::type_name_of(raw[0] >> 4)),
+                        format!("a request was given the reserved packet identifier 0: {}", crate::util::hex(&raw)),
+                    );
+                }
                 self.conns[conn].wire_broken = true;
                 self.cut = true;
                 return;
